@@ -154,7 +154,40 @@ def check(method, path, qargs, headers, bkind, bval, explicit_cl, via_client=Fal
             v.append(("body:data-content", "data %r arrived as %r" % (bval, gotbody)))
     if buf:
         v.append(("leftover", "unconsumed bytes %r after request" % bytes(buf)[:30]))
+    # the same connection's next request must be recovered on its own terms (nothing inherited from this one)
+    nxt = b"GET /next?z=1 HTTP/1.1\r\nHost: h\r\nX-Next: n\r\n\r\n"
+    if not v and rt.persisted:
+        rt.makeParser()
+        buf.extend(nxt)
+        try:
+            for _ in range(4):
+                if rt.parser is None:
+                    break
+                rt.parse()
+            env2 = server().buildEnviron(rt)
+            got2 = (rt.method, rt.path, rt.query, tuple(rt.headers.items()), bytes(rt.body), tuple(sorted((k, str(x)) for k, x in env2.items() if k.startswith("HTTP_") or k.startswith("CONTENT"))))
+        except Exception as ex:
+            got2 = ("raises", type(ex).__name__)
+        if got2 != fresh_next():
+            v.append(("next-request-inherits:%s" % bkind, "after %r the next request on the connection is recovered as %r, alone it is %r" % (msg[:80], got2, fresh_next())))
     return v
+
+
+_FRESH = []
+
+
+def fresh_next():
+    if not _FRESH:
+        nxt = b"GET /next?z=1 HTTP/1.1\r\nHost: h\r\nX-Next: n\r\n\r\n"
+        buf = bytearray(nxt)
+        rt = serving.Requestant(msg=buf, remoter=SimpleNamespace(tymeout=1.0, ca=("127.0.0.1", 5)))
+        for _ in range(4):
+            if rt.parser is None:
+                break
+            rt.parse()
+        env2 = server().buildEnviron(rt)
+        _FRESH.append((rt.method, rt.path, rt.query, tuple(rt.headers.items()), bytes(rt.body), tuple(sorted((k, str(x)) for k, x in env2.items() if k.startswith("HTTP_") or k.startswith("CONTENT")))))
+    return _FRESH[0]
 
 
 def build_via_client(kw):
